@@ -45,6 +45,19 @@ func IdentRef(s *sim.Src, name string, fancy int) string {
 	return identStyled(s, name, fancy)
 }
 
+// IdentRefSame renders a reference that still names the same object for SQLite: only
+// the case of ASCII letters and the quoting style vary.
+func IdentRefSame(s *sim.Src, name string, fancy int) string {
+	if fancy > 0 && s.Chance(1, 4, "refcase") {
+		if s.Chance(1, 2, "refupper") {
+			name = fold.Upper(name)
+		} else {
+			name = fold.Lower(name)
+		}
+	}
+	return identStyled(s, name, fancy)
+}
+
 func identStyled(s *sim.Src, name string, fancy int) string {
 	bare := isBare(name)
 	style := 0
